@@ -121,6 +121,15 @@ def run(ctx):
         else:
             g = _greater(old, pat, date)
             jobs.append((pat, old, "set", rng.choice(targets(rng, old, g)), nd))
+    # systematic: EVERY --set-version target class on versions whose pattern has optional numeric tails, in the short and in the long spelling
+    # (1.2 / 1.2.0: PEP 440-equal, textually different - neither may be announced from the other)
+    for pat, olds in (("MAJOR.MINOR[.PATCH]", ["1.2", "1.2.0", "1.0", "1.2.3"]), ("vMAJOR[.MINOR[.PATCH]]", ["v1", "v1.0", "v1.0.0", "v1.2"]), ("YYYY.MM[.INC0]", ["2021.3", "2021.3.0", "2021.3.1"]),
+                      ("MAJOR.MINOR.PATCH[PYTAGNUM]", ["1.2.3", "1.2.3rc0", "1.2.3b1"])):
+        for old in olds:
+            g = _greater(old, pat, dt.date(2021, 3, 9))
+            for tgt in targets(rng, old, g) + [("stripped.0", old[:-2] if old.endswith(".0") else old)]:
+                jobs.append((pat, old, "set", tgt, dt.date(2021, 3, 9)))
+            jobs.append((pat, old, "auto", glue.flags(), dt.date(2021, 3, 9)))          # a flag-less bump re-renders the version: it must not be announced if it is not greater
     events = drive.pmap(_test_case, jobs, hooks=False, chunksize=100)
     ctx.count("test_cases", len(events))
 
